@@ -207,6 +207,8 @@ func (cc *CheckCtx) frameObligations() {
 							switch b.Name() {
 							case "copy", "clear", "delete":
 								args = args[:1] // only the destination is written
+							case "append":
+								args = args[:1] // append writes into the backing array of its first argument when capacity allows
 							default:
 								suspect = false // len, cap, append (handled as a store root), min, max, print
 							}
@@ -354,6 +356,32 @@ func (cc *CheckCtx) frameObligations() {
 		}
 		add(fmt.Sprintf("gocvss%s.(%s).Vector/frame/buffer_not_written_after_string_view", pkg, typeOf(pkg)), ok, detail)
 	}
+}
+
+// poolUsers lists the functions of the four packages that call (*sync.Pool).Get.
+func (cc *CheckCtx) poolUsers() []string {
+	w := cc.W
+	var out []string
+	for fn := range ssautil.AllFunctions(w.Prog) {
+		if fn.Pkg == nil || fn.Synthetic != "" || w.Pkgs[pkgKeyOf(fn)] == nil {
+			continue
+		}
+		uses := false
+		for _, b := range fn.Blocks {
+			for _, ins := range b.Instrs {
+				if c, ok := ins.(*ssa.Call); ok {
+					if cal := c.Call.StaticCallee(); cal != nil && cal.String() == "(*sync.Pool).Get" {
+						uses = true
+					}
+				}
+			}
+		}
+		if uses {
+			out = append(out, pkgKeyOf(fn)+"."+FuncKey(fn))
+		}
+	}
+	sort.Strings(out)
+	return out
 }
 
 func isRefType(t types.Type) bool {
